@@ -51,6 +51,11 @@ let () =
         let mt_vars = ref [] in
         let toks = List.concat_map (fun t -> match split ',' t with
           | ["MT"; i] -> mt_vars := int_of_string i :: !mt_vars; ["MTQ," ^ i; "CL," ^ i]
+          (* "SL,i,j,a,m,v1.v2..." : save buffer j (max_size m, contents v1, v2, ...) and load it into buffer i (a = 1: i has storage):
+             load() = [deallocate the old storage]; allocate(m); push_back every element *)
+          | "SL" :: i :: _j :: a :: m :: rest ->
+            let vs = match rest with [""] | [] -> [] | [l] -> List.filter (fun x -> x <> "") (split '.' l) | _ -> [] in
+            (if a = "1" then ["D," ^ i] else []) @ ["A," ^ i ^ "," ^ m] @ List.map (fun v -> "PB," ^ i ^ "," ^ v) vs
           | _ -> [t]) toks in
         let ops = List.map (fun t -> match split ',' t with ["MTQ"; i] -> OQuery (nat_of_int (int_of_string i)) | _ -> ring_op t) toks in
         let is_mtq = List.map (fun t -> match split ',' t with ["MTQ"; _] -> true | _ -> false) toks in
@@ -74,6 +79,12 @@ let () =
         if outs <> souts then Buffer.add_string b " MODEL-DIFFERS-FROM-SPEC";
         print_endline (Buffer.contents b)
       | "svec" :: toks ->
+        (* "F,i,x,n" = fill(x) on a vector of n elements = n element assignments; "F0,i,n" = fill() with value_type() *)
+        let rec upto k n = if k >= n then [] else k :: upto (k + 1) n in
+        let toks = List.concat_map (fun t -> match split ',' t with
+          | ["F"; i; x; n] -> List.map (fun k -> Printf.sprintf "S,%s,%d,%s" i k x) (upto 0 (int_of_string n))
+          | ["F0"; i; n] -> List.map (fun k -> Printf.sprintf "S,%s,%d,0" i k) (upto 0 (int_of_string n))
+          | _ -> [t]) toks in
         let ops = List.map svec_op toks in
         let (s, outs) = vrun vinit ops in
         let sv = svalid [[]; []; []] ops in
